@@ -100,12 +100,19 @@ def run(ctx):
              'type-checker supports deeply or by origin isinstance')
     bm = repo.mod(BUILTIN)
     facs = {}
-    for nm, sts in bm.assigns.items():
-        for st in sts:
-            v = getattr(st, 'value', None)
-            if isinstance(v, ast.Dict):
-                for k, val in zip(v.keys, v.values):
-                    if isinstance(k, ast.Name) and isinstance(val, ast.Name):
+    # the builtin-type → factory table, by role: the dictionary display of names to names in the inference package
+    # (wherever it lives: the inferer module or a data module next to it)
+    pkg = BUILTIN.rsplit('.', 1)[0]
+    for mn_, m_ in sorted(repo.modules.items()):
+        if not mn_.startswith(pkg):
+            continue
+        for nm, sts in m_.assigns.items():
+            for st in sts:
+                v = getattr(st, 'value', None)
+                if isinstance(v, ast.Dict) and len(v.keys) >= 8 and all(isinstance(k, ast.Name) and isinstance(x, ast.Name)
+                                                                       for k, x in zip(v.keys, v.values)):
+                    bm = m_
+                    for k, val in zip(v.keys, v.values):
                         facs[k.id] = val.id
     deep = ctx.folder.const('beartype._data.hint.sign.datahintsignset', 'HINT_SIGNS_SUPPORTED_DEEP')
     orig = ctx.folder.const('beartype._data.hint.sign.datahintsignset', 'HINT_SIGNS_ORIGIN_ISINSTANCEABLE')
@@ -133,30 +140,12 @@ def run(ctx):
                f'{"" if cls_name in MAPPING_TYPES else "not "}a Mapping); the checker requires {list(r)}')
 
     # ---- R5 ----------------------------------------------------------------------
-    ctx.rule('C20.R5', 'under the On strategy the inferred item hint covers every item: each loop over the object (or '
-             'its items()) in the item inferers calls infer_hint on the loop variable directly in the loop body — not '
-             'under a condition — has no continue / break, and adds the result to the aggregate that becomes the union')
-    im2 = repo.mod(ITEMS)
-    n5 = 0
-    for fname in ('_infer_hint_reiterable_items', '_infer_hint_mapping_items'):
-        fn = im2.defs.get(fname)
-        ctx.require(fn is not None, f'anchor vanished: {fname}')
-        p0 = fn.args.args[0].arg
-        for lp in [x for x in ast.walk(fn) if isinstance(x, ast.For) and norm(x.iter) in (p0, f'{p0}.items()')]:
-            n5 += 1
-            tv = [t.id for t in ast.walk(lp.target) if isinstance(t, ast.Name)]
-            exits = [x for x in ast.walk(lp) if isinstance(x, (ast.Continue, ast.Break))]
-            direct = [st for st in lp.body if isinstance(st, ast.Assign) and isinstance(st.value, ast.Call)
-                      and dotted(st.value.func) == 'infer_hint' and any(k.arg == 'obj' and dotted(k.value) in tv for k in st.value.keywords)]
-            covered = {dotted(k.value) for st in direct for k in st.value.keywords if k.arg == 'obj'}
-            results = {dotted(st.targets[0]) for st in direct}
-            added = {dotted(c.args[0]) for st in lp.body if isinstance(st, ast.Expr) and isinstance(st.value, ast.Call)
-                     and isinstance(st.value.func, ast.Attribute) and st.value.func.attr in ('add', 'append') for c in [st.value] if c.args}
-            ok = not exits and set(tv) <= covered and results <= added
-            ctx.ob('C20.R5', f'{fname}:loop-over:{norm(lp.iter)}#{n5}:covers-every-item', im2.where(lp),
-                   'every item is inferred and contributes to the union', ok,
-                   f'exits: {[norm(x) for x in exits]}; inferred directly: {sorted(covered)} of {tv}; aggregated: {sorted(added)}')
-    ctx.floor('C20.R5', n5, 3, 'item loops of the inferers')
+    ctx.rule('C20.R5', 'the inferred item hint covers every item, decided by interpreting infer_hint_collection_items over '
+             'abstract collections (sequence, non-sequence collection, mapping, Counter, root tuple; 1–3 items) × strategy: '
+             'under On the factory is subscripted with the union of the hints inferred for every item (every key and every '
+             'value; every position of a short root tuple); under O1 with the hint of one item; an empty collection yields '
+             'the bare factory')
+    _items_cover(ctx)
 
 
 def _derived_from(fn, root: str) -> set:
@@ -173,3 +162,149 @@ def _derived_from(fn, root: str) -> set:
                 out.add(a.target.id)     # loop variables over inferers applied to obj
                 changed = True
     return out
+
+
+def _items_cover(ctx):
+    from sa.fold import AObj, FuncVal, Sym, _Abort, _Raise, _call_function
+    from sa.gen import AConf
+    from . import _gen
+    repo = ctx.repo
+    F = _gen.engines(ctx)[0].f
+    im = repo.mod(ITEMS)
+    fn = F.const(ITEMS, 'infer_hint_collection_items')
+    ctx.require(isinstance(fn, FuncVal), 'anchor vanished: infer_hint_collection_items')
+
+    class _Item(AObj):
+        def __init__(self, what):
+            self.what = what
+            # items 0 and 1 are instances of one type (with different contents), item 2 of another
+            self._abstract_type = 'type-B' if what.endswith(' 2') else 'type-A'
+
+        def __repr__(self):
+            return f'<{self.what}>'
+
+    class _Fac(AObj):
+        def __init__(self, name):
+            self.name = name
+
+        def __getitem__(self, args):
+            return ('subscripted', self.name, args)
+
+        def __repr__(self):
+            return self.name
+
+    class _Col(AObj):
+        def __init__(self, kind, n):
+            self.kind, self.n = kind, n
+            self.elems = [_Item(f'item {i}') for i in range(n)]
+            self.vals = [_Item(f'value {i}') for i in range(n)]
+
+        def __len__(self):
+            return self.n
+
+        def __bool__(self):
+            return self.n > 0
+
+        def __iter__(self):
+            return iter(self.elems)
+
+        def __getitem__(self, i):
+            return self.elems[i]
+
+        def items(self):
+            return list(zip(self.elems, self.vals))
+
+        def __repr__(self):
+            return f'<{self.kind} of {self.n}>'
+    saved_stubs, saved_i, saved_b = dict(F.stubs), F.isinstance_hook, F.builtin_hook
+    F.stubs['beartype.bite._infermain.infer_hint'] = lambda e, a, k: ('hint-of', k.get('obj', a[0] if a else None))
+    F.stubs['beartype._util.hint.pep.proposal.pep484.pep484604union.make_hint_pep484604_union'] = lambda e, a, k: ('union', frozenset(a[0]))
+    F.stubs['beartype._util.hint.pep.proposal.pep646.pep484585646tuple.make_hint_pep484585_tuple_fixed'] = lambda e, a, k: ('tuple-fixed', tuple(a[0]))
+    F.stubs['beartype._util.kind.integer.utilintget.get_integer_pseudorandom_signed_32bit'] = lambda e, a, k: 7
+    TUPLE, COUNTER, LIST, SET, DICT = _Fac('Tuple'), _Fac('Counter'), _Fac('List'), _Fac('Set'), _Fac('Dict')
+    olds = [(n_, F.patch_global(ITEMS, n_, v_)) for n_, v_ in (('Tuple', TUPLE), ('Counter', COUNTER))]
+
+    def ih(obj, c):
+        r = repr(c)
+        if isinstance(obj, _Col):
+            if 'Sequence' in r:
+                return obj.kind in ('sequence', 'tuple')
+            if 'Mapping' in r:
+                return obj.kind in ('mapping', 'counter')
+            return True
+        if isinstance(obj, str) and obj.startswith('TYPE:'):
+            return True
+        if isinstance(obj, AConf):
+            return True
+        return saved_i(obj, c) if saved_i else None
+
+    def bh(name, args, kw):
+        if name == 'issubclass' and args and isinstance(args[0], str) and args[0].startswith('TYPE:'):
+            return ('Mapping' in repr(args[1])) == (args[0] in ('TYPE:mapping', 'TYPE:counter'))
+        if name == 'id' and args and isinstance(args[0], AObj):
+            return id(args[0])
+        if name == 'type' and len(args) == 1 and isinstance(args[0], _Item):
+            return args[0]._abstract_type
+        if name in ('len', 'bool', 'iter', 'next') and args and isinstance(args[0], _Col):
+            return {'len': len, 'bool': bool, 'iter': lambda c: tuple(c), 'next': next}[name](args[0])
+        if name == 'next' and args and isinstance(args[0], (tuple, list)) and args[0]:
+            return args[0][0]
+        if name == 'iter' and args and isinstance(args[0], (tuple, list)):
+            return tuple(args[0])
+        if name in ('set', 'frozenset', 'tuple', 'list') and args and isinstance(args[0], (tuple, list, set, frozenset)):
+            return {'set': set, 'frozenset': frozenset, 'tuple': tuple, 'list': list}[name](args[0])
+        return saved_b(name, args, kw) if saved_b else NotImplemented
+    F.isinstance_hook, F.builtin_hook = ih, bh
+    cenum = repo.mod('beartype._conf.confenum')
+    ON = F.eval_in(cenum, ast.parse('BeartypeStrategy.On', mode='eval').body)
+    O1 = F.eval_in(cenum, ast.parse('BeartypeStrategy.O1', mode='eval').body)
+    n = 0
+    try:
+        for kind, fac in (('sequence', LIST), ('collection', SET), ('mapping', DICT), ('counter', COUNTER), ('tuple', TUPLE)):
+            for size in (0, 1, 2, 3):
+                for sname, strat in (('On', ON), ('O1', O1)):
+                    for nested in ((False, True) if kind == 'tuple' else (False,)):
+                        col = _Col(kind, size)
+                        seen = frozenset({12345}) if nested else frozenset()
+                        try:
+                            out = _call_function(F, fn, [], dict(obj=col, hint_factory=fac, conf=AConf(strategy=strat),
+                                                                 __beartype_obj_ids_seen__=seen, origin_type=f'TYPE:{kind}'), 1)
+                        except (_Abort, _Raise) as ex:
+                            ctx.require(False, f'cannot interpret infer_hint_collection_items ({kind}, {size} items, {sname}): {ex}')
+                        n += 1
+                        H = lambda x: ('hint-of', x)
+                        every = frozenset(H(x) for x in col.elems)
+                        everyv = frozenset(H(x) for x in col.vals)
+
+                        def covers(h, whole, one_of):
+                            # the hint of a single item, or the union of the hints of all
+                            if sname == 'On' or size == 1:
+                                return h == ('union', whole) or (len(whole) == 1 and h in whole)
+                            return h in one_of
+                        if size == 0:
+                            ok, want = out is fac, 'the bare factory'
+                        elif kind == 'tuple' and not nested:
+                            ok, want = out == ('tuple-fixed', tuple(H(x) for x in col.elems)), 'a fixed-length tuple hint of every position'
+                        elif kind in ('mapping', 'counter'):
+                            args = out[2] if isinstance(out, tuple) and out[:2] == ('subscripted', fac.name) else None
+                            if kind == 'counter':
+                                ok = args is not None and covers(args, every, every)
+                            else:
+                                ok = isinstance(args, tuple) and len(args) == 2 and covers(args[0], every, every) and covers(args[1], everyv, everyv)
+                            want = 'the factory subscripted by the hints of every key' + ('' if kind == 'counter' else ' and every value')
+                        else:
+                            args = out[2] if isinstance(out, tuple) and out[:2] == ('subscripted', fac.name) else None
+                            item_h = args[0] if (kind == 'tuple' and isinstance(args, tuple) and len(args) == 2) else args
+                            ok = args is not None and covers(item_h, every, every) and (kind != 'tuple' or args[1] is Ellipsis or repr(args[1]) == 'Ellipsis')
+                            want = 'the factory subscripted by the hints of every item'
+                        if sname == 'O1' and size > 1 and not (kind == 'tuple' and not nested):
+                            want = want.replace('every', 'one')
+                        ctx.ob('C20.R5', f'items:{kind}{"(nested)" if nested else ""}:{size}-items:{sname}', im.where(fn.node),
+                               f'a {kind} of {size} item(s) under {sname} is hinted as {want}', ok, f'evaluates to {out!r}')
+    finally:
+        F.isinstance_hook, F.builtin_hook = saved_i, saved_b
+        for n_, o_ in olds:
+            F.patch_global(ITEMS, n_, o_)
+        F.stubs.clear()
+        F.stubs.update(saved_stubs)
+    ctx.floor('C20.R5', n, 40, 'collection shapes × strategies')
